@@ -486,13 +486,16 @@ fn clear_wire(hdr: &PacketHdr, payload: &[u8]) -> Vec<u8> {
 struct Node {
     matter: &'static Matter<'static>,
     n_fabrics: usize,
+    /// unique ids of the sessions installed from the case's specification; every other
+    /// session was created by the receive path (its message counter starts at random)
+    spec_ids: std::cell::RefCell<Vec<u32>>,
 }
 
 impl Node {
     fn new() -> Self {
         let matter: &'static Matter<'static> =
             Box::leak(Box::new(Matter::new(&TEST_DEV_DET, TEST_DEV_COMM, &TEST_DEV_ATT, 5540)));
-        Node { matter, n_fabrics: 0 }
+        Node { matter, n_fabrics: 0, spec_ids: Default::default() }
     }
 
     /// empty fabrics 1..=n with the group key sets / mappings of `groups` (in order)
@@ -526,6 +529,7 @@ impl Node {
 
     fn reset_sessions(&self) {
         self.matter.with_state(|state| state.verif_sessions().reset());
+        self.spec_ids.borrow_mut().clear();
     }
 
     fn install_sessions<C: Crypto>(&self, crypto: &C, sessions: &[SessS]) {
@@ -552,6 +556,7 @@ impl Node {
             self.matter.with_state(|state| {
                 let sessions = state.verif_sessions();
                 let id = sessions.iter().last().unwrap().id();
+                self.spec_ids.borrow_mut().push(id);
                 let sess = sessions.get(id).unwrap();
                 sess.verif_set_raw(s.ctr.unwrap_or(0), s.expired, s.reserved, s.pnode);
                 *sess.verif_rx_ctr_state() = RxCtrState::verif_from_raw(s.win.0, s.win.1, s.win.2);
@@ -572,7 +577,18 @@ impl Node {
     fn snapshot(&self, keys: &KeyTable) -> (Vec<SessS>, String) {
         self.matter.with_state(|state| {
             let sessions = state.verif_sessions();
-            let v: Vec<SessS> = sessions.iter().map(|s| sess_of_snapshot(&s.verif_snapshot(), keys)).collect();
+            let spec_ids = self.spec_ids.borrow();
+            let v: Vec<SessS> = sessions
+                .iter()
+                .map(|s| {
+                    let snap = s.verif_snapshot();
+                    let mut t = sess_of_snapshot(&snap, keys);
+                    if !spec_ids.contains(&snap.id) {
+                        t.ctr = None;
+                    }
+                    t
+                })
+                .collect();
             let mut g = Vec::new();
             let clock = sessions.verif_group_ctr_store().verif_for_each(|fab, node, max, bm, last| {
                 g.push(format!("{}.{}.{}.{}.{}", fab, node, max, bm, last));
@@ -584,7 +600,8 @@ impl Node {
     fn remove_slot(&self, idx: usize) {
         self.matter.with_state(|state| {
             let sessions = state.verif_sessions();
-            if let Some(id) = sessions.iter().nth(idx).map(|s| s.id()) {
+            let id = sessions.iter().nth(idx).map(|s| s.id());
+            if let Some(id) = id {
                 sessions.remove(id);
             }
         });
@@ -627,6 +644,8 @@ fn err_class(e: &Error) -> char {
         ErrorCode::NoSpaceExchanges => 'X',
         ErrorCode::NoSpaceSessions => 'Z',
         ErrorCode::BufferTooSmall => 'B',
+        ErrorCode::InvalidState => 'V',
+        ErrorCode::TxTimeout => 'O',
         _ => '?',
     }
 }
@@ -637,21 +656,10 @@ fn hdr_show(h: &PacketHdr) -> String {
     format!("{}.{}.{}.{}.{}.{};{}.{}.{}.{}.{}.{}", p.0, p.1, p.2, p.3, p.4, p.5, x.0, x.1, x.2, x.3, x.4, x.5)
 }
 
-/// sessions after a decode, with the counters of sessions the call appended printed as `?`
-fn state_show(after: &[SessS], n_before: usize, gstore: &str) -> String {
-    let v: Vec<String> = after
-        .iter()
-        .enumerate()
-        .map(|(i, s)| {
-            if i >= n_before {
-                let mut t = s.clone();
-                t.ctr = None;
-                t.show()
-            } else {
-                s.show()
-            }
-        })
-        .collect();
+/// the session table and the group counter store (sessions created by the receive path
+/// carry `?` as message counter, see `Node::snapshot`)
+fn state_show(after: &[SessS], _n_before: usize, gstore: &str) -> String {
+    let v: Vec<String> = after.iter().map(|s| s.show()).collect();
     format!("{}|{}", if v.is_empty() { "-".to_string() } else { v.join(";") }, gstore)
 }
 
@@ -796,6 +804,8 @@ fn run_d<C: Crypto>(crypto: &C, f: &[&str]) -> String {
         dirty: true,
     };
     let mut out = format!("D {}", f[1]);
+    r.rebuild();
+    write!(out, " ^{}", state_show(&r.base.0, r.base.0.len(), &r.base.1)).unwrap();
     for m in f[9].split(',') {
         let tok = match m.as_bytes()[0] {
             b'-' => r.decode(&from, &wire).1,
@@ -931,8 +941,10 @@ fn run_r<C: Crypto>(crypto: &C, f: &[&str]) -> String {
                 base: (vec![], String::new()),
                 dirty: true,
             };
+            r.rebuild();
+            let base = state_show(&r.base.0, r.base.0.len(), &r.base.1);
             let tok = r.decode(&from, &wire).1;
-            format!("R {} tx[{}] {} {} {}", f[1], hdr_show(&hdr), hex(&wire), after.show(), tok)
+            format!("R {} tx[{}] {} {} ^{} {}", f[1], hdr_show(&hdr), hex(&wire), after.show(), base, tok)
         }
     }
 }
@@ -1666,7 +1678,12 @@ fn generate<C: Crypto>(crypto: &C, tier: &str, seed: u64) -> (Vec<String>, BTree
                     let payload = payload_of(&mut g.rng, *len);
                     // variant 0: no exchange; 1: our initiator exchange; 2: our responder exchange with a pending ack
                     let (exch, rel) = match variant {
-                        0 => (None, li % 2 == 0),
+                        0 => {
+                            // without an exchange the message carries exchange id 0 and no initiator flag:
+                            // the peer's own initiator exchange 0 takes it
+                            receiver.exchs = vec![ex(0, 'I', 'o', None, None)];
+                            (None, li % 2 == 0)
+                        }
                         1 => {
                             sender.exchs = vec![ex(33, 'I', 'o', None, None)];
                             receiver.exchs = vec![];
